@@ -43,13 +43,13 @@ package gpu_sharing
 //@   loop 1
 //@     invariant 0 - 1 <= rangeindex && rangeindex < len(fittingGPUsOnNode)
 //@     invariant nodeGpusSharing != nil && len(nodeGpusSharing.Groups) == rangeindex + 1
-//@     invariant forall j int :: 0 <= j && j <= rangeindex && existingAt(fittingGPUsOnNode, j) ==> nodeGpusSharing.Groups[j] == fittingGPUsOnNode[j]
-//@     invariant !nodeGpusSharing.IsReleasing ==> (forall j int :: 0 <= j && j <= rangeindex && existingAt(fittingGPUsOnNode, j) ==> node_info.idleRoomOnGpu(node, pod.ResReq, fittingGPUsOnNode[j]))
-//@     invariant !nodeGpusSharing.IsReleasing && rangeindex >= 0 ==> bindableOnIdle(node, pod)
+//@     invariant forall j int :: 0 <= j && j <= rangeindex && old(existingAt(fittingGPUsOnNode, j)) ==> nodeGpusSharing.Groups[j] == old(fittingGPUsOnNode[j])
+//@     invariant !nodeGpusSharing.IsReleasing ==> (forall j int :: 0 <= j && j <= rangeindex && old(existingAt(fittingGPUsOnNode, j)) ==> old(node_info.idleRoomOnGpu(node, pod.ResReq, fittingGPUsOnNode[j])))
+//@     invariant !nodeGpusSharing.IsReleasing && rangeindex >= 0 ==> old(bindableOnIdle(node, pod))
 //@     decreases len(fittingGPUsOnNode) - rangeindex
 //@   ensures [count] result != nil ==> len(result.Groups) == pod.ResReq.count && len(result.Groups) >= 1
-//@   ensures [sameGroups] result != nil ==> len(result.Groups) <= len(fittingGPUsOnNode) && (forall j int :: 0 <= j && j < len(result.Groups) && existingAt(fittingGPUsOnNode, j) ==> result.Groups[j] == fittingGPUsOnNode[j])
-//@   ensures [top] result != nil && !result.IsReleasing ==> (forall j int :: 0 <= j && j < len(result.Groups) && existingAt(fittingGPUsOnNode, j) ==> node_info.idleRoomOnGpu(node, pod.ResReq, result.Groups[j]))
+//@   ensures [sameGroups] result != nil ==> len(result.Groups) <= len(fittingGPUsOnNode) && (forall j int :: 0 <= j && j < len(result.Groups) && old(existingAt(fittingGPUsOnNode, j)) ==> result.Groups[j] == old(fittingGPUsOnNode[j]))
+//@   ensures [top] result != nil && !result.IsReleasing ==> (forall j int :: 0 <= j && j < len(result.Groups) && old(existingAt(fittingGPUsOnNode, j)) ==> node_info.idleRoomOnGpu(node, pod.ResReq, result.Groups[j]))
 //@   ensures [bindFitsIdle] result != nil && !result.IsReleasing ==> bindableOnIdle(node, pod)
 //@ end
 
